@@ -76,3 +76,5 @@ Example C07_example :
   (exists d, q_jetset f = Some d /\ jget "MSTJ" 26 d = Some (CInt 0) /\ jget "PARJ" 1 d = Some (CNum (2 # 5)%Q)) /\
   (exists d, q_lineshape f = Some d /\ get2 "MyK" "BlattWeisskopf" d = Some (LNum 3%Q)).
 Proof. vm_compute. repeat split; eexists; repeat split. Qed.
+Print Assumptions C07_queries_are_such_dictionaries.
+Print Assumptions C07_particle_width.
